@@ -701,7 +701,7 @@ func (w *World) checkDeliveries(s *Sub, via string, rms []*pubsubpb.ReceivedMess
 				p, sig = "C14", "delivered-before-delay"
 			}
 			if reason == "blocked-by-predecessor" {
-				sig += ":direct-predecessor-" + directPred(d, hi)
+				sig += ":direct-predecessor-" + w.directPred(d, hi)
 			}
 			w.violate(p, sig, "%s on %s#%d at %s delivered %s although the model says: %s%s%s", via, s.Name, s.Gen, ts(lo), d, reason, sameKey(d), w.rowDiag(d))
 			if reason != "blocked-by-predecessor" {
@@ -1587,6 +1587,33 @@ func (w *World) rowDiag(d *Del) string {
 	return b.String()
 }
 
+// rowState: "completed", "expired", "gone" or "outstanding" for the delivery row
+// behind d (used only to classify a violation that has already been decided)
+func (w *World) rowState(d *Del, at time.Time) string {
+	q := `SELECT d.completed_at, d.expires_at FROM deliveries d JOIN subscriptions s ON d.subscription_id = s.id WHERE s.name = ? AND s.deleted_at IS NULL AND d.message_id = ?`
+	rows, err := w.E.RawDB().QueryContext(context.Background(), q, d.Sub.Name, d.Msg.ID)
+	if err != nil {
+		return "unknown"
+	}
+	defer rows.Close()
+	state := "gone"
+	for rows.Next() {
+		var ca, ea any
+		if rows.Scan(&ca, &ea) != nil {
+			return "unknown"
+		}
+		switch e, _ := ea.(time.Time); {
+		case ca != nil:
+			state = "completed"
+		case !e.IsZero() && !e.After(at):
+			state = "expired"
+		default:
+			return "outstanding"
+		}
+	}
+	return state
+}
+
 func tsAny(v any) string {
 	switch x := v.(type) {
 	case nil:
@@ -1673,7 +1700,7 @@ func (w *World) wildSource(s *Sub, m *Msg) bool {
 // (the shape of an ordering violation: "out" = the very predecessor is still
 // outstanding; anything else = an older message was overtaken after the link
 // in between went away).
-func directPred(d *Del, hi time.Time) string {
+func (w *World) directPred(d *Del, hi time.Time) string {
 	var ip *Del
 	for _, p := range d.Sub.Dels {
 		if p == d || p.Msg.Key != d.Msg.Key || p.Forwarded || p.ArrSeq >= d.ArrSeq {
@@ -1687,7 +1714,8 @@ func directPred(d *Del, hi time.Time) string {
 	case ip == nil:
 		return "none"
 	case ip.Wild:
-		return "wild"
+		// the model lost track of it: classify by what its row says
+		return "wild-" + w.rowState(ip, hi)
 	case ip.State == Out && ip.expiredPossible(hi):
 		return "expired"
 	}
